@@ -151,6 +151,11 @@ def l2(ctx, rep):
         keys = set(atoms_of(reach))
         for kind in ('empty', 'dtype', 'nan'):
             spec = bad_input(kind, keys)
+            hints = {'empty': ('len', 'size', 'shape', 'empty'), 'dtype': ('dtype', 'numeric', 'number'), 'nan': ('nan', 'null', 'isna', 'finite')}[kind]
+            if spec is None and any(h in k.lower() for k in keys for h in hints):
+                rep.undecided('L2.guards', w, c, f'a test that looks like the {kind} guard is present but its form is not recognised: '
+                              f'{[k for k in sorted(keys) if any(h in k.lower() for h in hints)][:3]}', construct=f'{kind} guard')
+                continue
             if spec is None:
                 rep.bad('L2.guards', w, c, f'the wrapped fit is reached without any {kind} test: such input is accepted (or fails late, with the model half-written)',
                         construct=f'{kind} guard')
